@@ -1375,6 +1375,140 @@ Proof.
 Qed.
 
 (* ------------------------------------------------------------------ *)
+(* Commit                                                              *)
+
+Lemma step_commit w sp : R w sp -> wf_op sp OCommit = true ->
+  exists w', step w OCommit = Ok w' /\ R w' (sp_commit sp) /\ w_limit w' = w_limit w.
+Proof.
+  intros HR Hwf. cbn [wf_op] in Hwf. apply andb_true_iff in Hwf as [Hidle Hpers].
+  unfold idle in Hidle. destruct (sp_pend sp) as [p|] eqn:Ep; [|discriminate]. clear Hidle.
+  pose proof (r_si _ _ HR) as HS.
+  pose proof (si_mp _ HS) as S1. pose proof (si_pc _ HS) as S2. pose proof (si_cl _ HS) as S3.
+  pose proof (si_ps _ HS) as S4. pose proof (si_sl _ HS) as S5.
+  pose proof (r_q _ _ HR) as Q. rewrite Ep, Hpers in Q. destruct Q as (ud & Hq & Hud).
+  destruct Hud as (U1 & U2 & U3 & U4 & U5 & U6 & U7 & U8).
+  assert (Hcov : cover sp = sp_last sp) by (unfold cover; rewrite Hpers; reflexivity).
+  assert (Hok : rd_ok sp = true) by (unfold rd_ok; rewrite Hpers; apply orb_true_r).
+  pose proof (r_m2 _ _ HR) as M2. pose proof (f_len _ _ HR) as FL. pose proof (f_log _ _ HR) as FLog.
+  set (pr' := if 0 <? spd_processed p then spd_processed p else sp_processed sp).
+  assert (Hpr : sp_processed sp <= pr' /\ pr' <= sp_committed sp) by (unfold pr'; destruct (0 <? spd_processed p) eqn:E; lia).
+  (* the spec after the commit *)
+  assert (Hsp' : sp_commit sp = mkSpec (sp_mi sp) (sp_mt sp) (sp_ents sp) (sp_committed sp) pr' (sp_last sp) false None false).
+  { unfold sp_commit. rewrite Ep, Hpers. fold pr'. f_equal.
+    - destruct (spd_save_last p) as [[i t]|].
+      + destruct U2 as (_ & _ & -> & -> & X). 
+        replace ((sp_mi sp <? sp_last sp) && (sp_last sp <=? sp_last sp)) with true by lia.
+        rewrite N.eqb_refl. reflexivity.
+      + destruct U2 as (_ & X). exact X.
+    - rewrite U6. destruct (sp_snap sp); reflexivity. }
+  (* savedLogTo + savedSnapshotTo *)
+  assert (HA : exists im1, im_commit_update (el_im (w_el w)) (uc_stable_to (ud_uc ud)) (uc_stable_term (ud_uc ud)) (uc_stable_snap (ud_uc ud)) = Ok im1
+              /\ im_saved im1 = sp_last sp /\ im_snap im1 = None /\ im_ents im1 = im_ents (el_im (w_el w)) /\ im_marker im1 = im_marker (el_im (w_el w))
+              /\ im_aidx im1 = im_aidx (el_im (w_el w)) /\ im_aterm im1 = im_aterm (el_im (w_el w))).
+  { unfold im_commit_update.
+    assert (HB : exists im0, (if 0 <? uc_stable_to (ud_uc ud) then im_saved_log_to (el_im (w_el w)) (uc_stable_to (ud_uc ud)) (uc_stable_term (ud_uc ud)) else Ok (el_im (w_el w))) = Ok im0
+               /\ im_saved im0 = sp_last sp /\ im_snap im0 = im_snap (el_im (w_el w)) /\ im_ents im0 = im_ents (el_im (w_el w)) /\ im_marker im0 = im_marker (el_im (w_el w))
+               /\ im_aidx im0 = im_aidx (el_im (w_el w)) /\ im_aterm im0 = im_aterm (el_im (w_el w))).
+    { destruct (spd_save_last p) as [[i t]|].
+      - destruct U2 as (-> & -> & -> & -> & X).
+        destruct (0 <? sp_last sp) eqn:E0; [|lia]. unfold im_saved_log_to.
+        destruct (sp_last sp <? im_marker (el_im (w_el w))) eqn:E1; [lia|].
+        destruct (im_ents (el_im (w_el w))) as [|x0 xs] eqn:Ee; [rewrite nlen_nil in FL; lia|]. rewrite <- Ee in *. cbn [is_nil].
+        replace (is_nil (im_ents (el_im (w_el w)))) with false by (rewrite Ee; reflexivity).
+        rewrite (f_last_entry _ _ HR) by congruence.
+        destruct (sp_last sp <? sp_last sp) eqn:E2; [lia|].
+        rewrite (f_get _ _ HR) by lia.
+        destruct (sp_get_in sp (sp_last sp) HS) as [e Ge]; [lia|lia|]. rewrite Ge.
+        assert (sp_term sp (sp_last sp) = e_term e).
+        { unfold sp_term. destruct (sp_last sp =? sp_mi sp) eqn:E3; [lia|]. rewrite Ge. reflexivity. }
+        rewrite H, N.eqb_refl. eexists; split; [reflexivity|]. cbn. repeat split; reflexivity.
+      - destruct U2 as (-> & X). cbn [N.ltb]. replace (0 <? 0) with false by reflexivity.
+        eexists; split; [reflexivity|]. repeat split; auto. rewrite (r_s _ _ HR). exact X. }
+    destruct HB as (im0 & -> & B1 & B2 & B3 & B4 & B5 & B6). cbn [bind].
+    rewrite U7. destruct (sp_snap sp) eqn:Es.
+    - destruct (si_snap _ HS Es) as (_ & X). destruct (0 <? sp_mi sp) eqn:E; [|lia].
+      unfold im_saved_snapshot_to. rewrite B2. rewrite (r_snap _ _ HR), Es, N.eqb_refl.
+      eexists; split; [reflexivity|]. cbn. repeat split; auto.
+    - replace (0 <? 0) with false by reflexivity. eexists; split; [reflexivity|].
+      repeat split; auto. rewrite B2. rewrite (r_snap _ _ HR), Es. reflexivity. }
+  destruct HA as (im1 & HA & A1 & A2 & A3 & A4 & A5 & A6).
+  (* appliedLogTo *)
+  set (la := uc_last_applied (ud_uc ud)) in *.
+  assert (HC : exists im2, (if 0 <? la then
+                 if sp_committed sp <? la then Panic PLastAppliedCommitted
+                 else if pr' <? la then Panic PLastAppliedProcessed
+                 else do im2 <- im_applied_log_to im1 la ;; Ok (mkEL im2 (sp_committed sp) pr')
+               else Ok (mkEL im1 (sp_committed sp) pr')) = Ok (mkEL im2 (sp_committed sp) pr')
+            /\ im_saved im2 = sp_last sp /\ im_snap im2 = None /\ im_marker im2 <= sp_last sp + 1
+            /\ log_ok (im_marker im2) (im_ents im2)
+            /\ (forall i, sp_mi sp < i -> im_marker im2 <= i -> nth_error (im_ents im2) (N.to_nat (i - im_marker im2)) = sp_get sp i)
+            /\ im_marker im2 + nlen (im_ents im2) = sp_last sp + 1
+            /\ (im_marker im2 <= sp_mi sp -> exists e, nth_error (im_ents im2) (N.to_nat (sp_mi sp - im_marker im2)) = Some e /\ e_term e = sp_mt sp)
+            /\ im_aidx im2 <= sp_committed sp
+            /\ (im_aidx im2 <> 0 -> sp_mi sp <= im_aidx im2 -> im_aterm im2 = sp_term sp (im_aidx im2) /\ im_aterm im2 <> 0)).
+  { assert (Hkeep : im_saved im1 = sp_last sp /\ im_snap im1 = None /\ im_marker im1 <= sp_last sp + 1
+            /\ log_ok (im_marker im1) (im_ents im1)
+            /\ (forall i, sp_mi sp < i -> im_marker im1 <= i -> nth_error (im_ents im1) (N.to_nat (i - im_marker im1)) = sp_get sp i)
+            /\ im_marker im1 + nlen (im_ents im1) = sp_last sp + 1
+            /\ (im_marker im1 <= sp_mi sp -> exists e, nth_error (im_ents im1) (N.to_nat (sp_mi sp - im_marker im1)) = Some e /\ e_term e = sp_mt sp)
+            /\ im_aidx im1 <= sp_committed sp
+            /\ (im_aidx im1 <> 0 -> sp_mi sp <= im_aidx im1 -> im_aterm im1 = sp_term sp (im_aidx im1) /\ im_aterm im1 <> 0)).
+    { rewrite A3, A4, A5, A6. split; [exact A1|]. split; [exact A2|]. split; [lia|]. split; [exact FLog|].
+      split; [apply (r_w2 _ _ HR)|]. split; [exact FL|]. split; [apply (r_w4 _ _ HR)|]. split; [apply (r_a1 _ _ HR)|apply (r_a2 _ _ HR)]. }
+    destruct (0 <? la) eqn:E0; [|exists im1; split; [reflexivity|exact Hkeep]].
+    destruct (sp_committed sp <? la) eqn:E1; [lia|]. destruct (pr' <? la) eqn:E2; [lia|].
+    unfold im_applied_log_to. rewrite A4, A3.
+    destruct (la <? im_marker (el_im (w_el w))) eqn:E3; [exists im1; split; [reflexivity|exact Hkeep]|].
+    destruct (im_ents (el_im (w_el w))) as [|x0 xs] eqn:Ee; [rewrite nlen_nil in FL; lia|]. rewrite <- Ee in *.
+    replace (is_nil (im_ents (el_im (w_el w)))) with false by (rewrite Ee; reflexivity).
+    rewrite (f_last_entry _ _ HR) by congruence.
+    destruct (sp_last sp <? la) eqn:E4; [lia|].
+    destruct (nth_error (im_ents (el_im (w_el w))) (N.to_nat (la - im_marker (el_im (w_el w))))) as [e|] eqn:En.
+    2:{ apply nth_error_None in En. unfold nlen in FL. lia. }
+    destruct (FLog _ _ En) as (I1 & I2 & _).
+    destruct (negb (e_index e =? la)) eqn:E5; [lia|].
+    set (k := N.to_nat (la + 1 - im_marker (el_im (w_el w)))).
+    assert (W1' : log_ok (la + 1) (skipn k (im_ents (el_im (w_el w))))).
+    { replace (la + 1) with (im_marker (el_im (w_el w)) + N.of_nat k) by (unfold k; lia). apply log_ok_skipn. exact FLog. }
+    rewrite check_marker_hd by (cbn [im_marker im_ents]; exact W1'). cbn [bind].
+    eexists; split; [reflexivity|]. cbn [im_saved im_snap im_marker im_ents im_aidx im_aterm].
+    split; [exact A1|]. split; [exact A2|]. split; [lia|]. split; [exact W1'|]. split; [|split; [|split; [|split]]].
+    - intros i Hi1 Hi2. rewrite nth_error_skipn. rewrite <- (r_w2 _ _ HR i Hi1) by lia.  f_equal. unfold k. lia.
+    - rewrite nlen_skipn. unfold k. unfold nlen in *. lia.
+    - intros Hm. destruct (r_w4 _ _ HR) as (e' & Ge' & Gt'); [lia|]. exists e'. split; [|exact Gt'].
+      rewrite nth_error_skipn. rewrite <- Ge'.  f_equal. unfold k. lia.
+    - lia.
+    - intros _ Hmi. split; [|lia]. rewrite I1. replace (im_marker (el_im (w_el w)) + N.of_nat (N.to_nat (la - im_marker (el_im (w_el w))))) with la by lia.
+      destruct (N.eq_dec la (sp_mi sp)) as [Heq|Hne].
+      + destruct (r_w4 _ _ HR) as (e' & Ge' & Gt'); [lia|].  rewrite <- Heq in Ge'. rewrite En in Ge'.
+        inversion Ge'; subst e'. unfold sp_term. rewrite Heq, N.eqb_refl. exact Gt'.
+      + pose proof (r_w2 _ _ HR la) as X.  rewrite En in X. unfold sp_term.
+        destruct (la =? sp_mi sp) eqn:E6; [lia|]. rewrite <- X by lia. reflexivity. }
+  destruct HC as (im2 & HC & C1 & C2 & C3 & C4 & C5 & C6 & C7 & C8 & C9).
+  cbn [step]. unfold w_commit. rewrite Hq. cbn [p_persisted p_ud]. unfold el_commit_update.  rewrite HA. cbn [bind].
+  rewrite (r_p _ _ HR), (r_c _ _ HR), U3.
+  assert (HP : (if 0 <? spd_processed p
+                then if (spd_processed p <? sp_processed sp) || (sp_committed sp <? spd_processed p) then Panic PProcessed else Ok (spd_processed p)
+                else Ok (sp_processed sp)) = Ok pr').
+  { unfold pr'. destruct (0 <? spd_processed p) eqn:E; [|reflexivity].
+    destruct ((spd_processed p <? sp_processed sp) || (sp_committed sp <? spd_processed p)) eqn:E2; [lia|reflexivity]. }
+  rewrite HP. cbn [bind]. fold la. rewrite HC. cbn [bind].
+  eexists; split; [reflexivity|]. split; [|reflexivity]. rewrite Hsp'.
+  constructor; cbn [w_el w_lr w_st w_queue el_im el_committed el_processed
+                    sp_mi sp_mt sp_ents sp_committed sp_processed sp_saved sp_snap sp_pend sp_persisted]; auto; try discriminate.
+  - constructor; cbn [sp_mi sp_mt sp_ents sp_committed sp_processed sp_saved sp_snap sp_pend sp_persisted];
+      unfold sp_last; cbn [sp_mi sp_ents]; fold (sp_last sp); try lia; try discriminate.
+    + apply (si_log _ HS).
+    + apply (si_max _ HS).
+  - intros _. unfold cover, sp_last. cbn [sp_persisted sp_saved sp_mi sp_ents]. fold (sp_last sp).
+    destruct (r_lr _ _ HR Hok) as (D1 & D2 & D3 & D4 & D5). rewrite Hcov in *. repeat split; auto.
+  - unfold cover, sp_get. cbn [sp_persisted sp_saved sp_mi sp_ents]. fold (sp_get sp).
+    intros i Hi1 Hi2. apply (r_st _ _ HR); auto. rewrite Hcov. exact Hi2.
+  - unfold cover. cbn [sp_persisted sp_saved]. pose proof (r_stmax _ _ HR) as X. rewrite Hcov in X. exact X.
+  - split; [apply (r_ss _ _ HR)|]. unfold rd_ok. cbn [sp_snap sp_persisted negb orb]. discriminate.
+Qed.
+
+(* ------------------------------------------------------------------ *)
 (* induction over operation sequences                                  *)
 
 (* the operations whose preservation of R is proved here; for the others
